@@ -410,6 +410,7 @@ func main() {
 				one(w, []byte(valid[i]))
 				one(w, []byte(valid[i]+"\n"))
 				mc.Mutations1([]byte(valid[i]), mc.AllBytes, func(m []byte) { one(w, m) })
+				mc.MutationsTok([]byte(valid[i]), mc.Lookalikes, func(m []byte) { one(w, m) })
 			})
 		})
 		r.Sample("mutant", arg{In: "1.0.0-alpha\n"})
